@@ -5,3 +5,4 @@ import RP
 #print axioms RP.state_machine_safety
 #print axioms RP.snapshot_coverage
 #print axioms RP.state_machine_safety_snap
+#print axioms RP.fsm_safety
